@@ -776,7 +776,7 @@ func exec(t []string) string {
 			// continue from the direct build, so that every later comparison is an independent
 			// experiment and not the echo of this difference
 			fresh.blocks, fresh.props, fresh.nonce = w.blocks, w.props, w.nonce
-			fresh.regTxs, fresh.spent = w.regTxs, w.spent
+			fresh.regTxs, fresh.spent, fresh.reUnreg = w.regTxs, w.spent, w.reUnreg
 			fresh.noteCandidates()
 			w = fresh
 		}
